@@ -91,8 +91,14 @@ def oracle(case, rec, group):
         if s[0] == "meth": return [t.get("r%d" % s[4])] + [t.get("r%d" % q) for q in s[5]]
         if s[0] == "ite": return [t.get("r%d" % s[2]), t.get("r%d" % s[3]), t.get("r%d" % s[4])]
         return []
+    def shift_beyond(s):
+        # x << y, x >> y multiply / divide by 2 ** y: with 2 ** y at or beyond the field size the intermediate power wraps (tiny test fields only)
+        if s is None or s[0] != "bin" or s[2] not in ("lshift", "rshift"): return False
+        b = t.get("r%d" % s[4])
+        return isinstance(b, int) and b >= 0 and (1 << min(b, 4096)) >= P
     for pc, iv in rec["vals"]:
-        if any(beyond(o) for o in operands(stmt_at(case["prog"], pc))): break      # operands at or beyond the field size: integers and field elements part ways
+        st_ = stmt_at(case["prog"], pc)
+        if any(beyond(o) for o in operands(st_)) or shift_beyond(st_): break      # operands at or beyond the field size: integers and field elements part ways
         if pc in t:
             ok = same(t[pc], iv, case["cfg"]["p"])
             if ok is False:
